@@ -27,7 +27,15 @@ def _chameleon():
 
 
 class Recorder:
+    variant = "identity"
+
+    def translate(self, msgid, domain=None, mapping=None, context=None, target_language=None, default=None):
+        if isinstance(msgid, str):
+            self.tcalls.append((msgid, dict(mapping) if mapping else None, default, domain, context, target_language))
+        return C.tf_result(self.variant, msgid, mapping, default)
+
     def __init__(self, vf, names):
+        self.tcalls = []
         self.vf = vf
         self.names = names
         self.script = {}
@@ -43,6 +51,7 @@ class Recorder:
         self.handled = []
         self.extra = False
         self.raised = None
+        self.tcalls = []
         for ev in log:
             if ev["ev"] == "call":
                 self.script.setdefault(ev["k"], []).append(ev["r"])
@@ -140,7 +149,7 @@ def normalise_calls(ks, sites):
 class Replayer:
     """compiles one concrete template of program p and replays behaviours"""
 
-    def __init__(self, p, names, perm=0, options=None, concretizer=None):
+    def __init__(self, p, names, perm=0, options=None, concretizer=None, variant=None):
         PageTemplate, DEFAULT_MARKER = _chameleon()
         self.p = p
         self.names = names
@@ -149,6 +158,10 @@ class Replayer:
         self.rec = Recorder(self.vf, names)
         self.sites = site_of_calls(p)
         self.options = dict(options or {})
+        self.variant = variant or self.options.pop("_translate_variant", None)
+        if self.variant:
+            self.rec.variant = self.variant
+            self.options["translate"] = self.rec.translate
         if perm // 100 == 3:
             self.options["enable_data_attributes"] = True
         self.compile_error = None
@@ -187,7 +200,7 @@ class Replayer:
         if rec["res"] == "ok":
             if err is not None:
                 return False, "spec renders, code raises %s: %s" % (type(err).__name__, str(err).splitlines()[:1])
-            segs = C.print_atoms(rec["out"], self.c, self.p, self.vf)
+            segs = C.print_atoms(rec["out"], self.c, self.p, self.vf, None, rec["log"], self.variant or "identity")
             ok, why = C.match_segments(segs, C.norm_entities(text))
             if not ok:
                 return False, "text: " + why
@@ -216,6 +229,14 @@ class Replayer:
                         return False, "snapshot %d: %s spec %s code %s" % (k1, n, e1.get(n), e2.get(n))
                 elif _strip(e1.get(n)) != _strip(e2.get(n)):
                     return False, "snapshot %d: %s spec %s code %s" % (k1, n, e1.get(n), e2.get(n))
+        # ---- translation calls (C10): message id, mapping, default, domain, context, target -- in order
+        if self.variant:
+            wt = C.expected_translate_calls(rec["log"], self.c, self.p, self.vf, self.variant)
+            gt = r.tcalls
+            if wt != gt:
+                k = next((n for n in range(min(len(wt), len(gt))) if wt[n] != gt[n]), min(len(wt), len(gt)))
+                return False, "translate calls differ at call %d: spec %s, code %s" % (
+                    k + 1, wt[k] if k < len(wt) else "(none)", gt[k] if k < len(gt) else "(none)")
         # ---- handler calls
         wh = [ev["c"] for ev in rec["log"] if ev["ev"] == "handler"]
         if wh != r.handled:
